@@ -453,7 +453,7 @@ func c20EndToEnd(c *Ctx, im *Impl) {
 		// chain: signed by the CA; inside the window the whole chain verifies
 		cerr := cert.CheckSignatureFrom(caCert)
 		if cerr == nil && window <= 1 {
-			_, cerr = cert.Verify(x509.VerifyOptions{Roots: pool, CurrentTime: now.Add(time.Second), KeyUsages: []x509.ExtKeyUsage{x509.ExtKeyUsageAny}})
+			_, cerr = cert.Verify(x509.VerifyOptions{Roots: pool, CurrentTime: time.Now().Add(time.Second), KeyUsages: []x509.ExtKeyUsage{x509.ExtKeyUsageAny}})
 		}
 		if cerr != nil {
 			im.Violate("issued certificate does not chain to the signing CA: "+cerr.Error(), "e2e-chain", rec)
